@@ -59,6 +59,10 @@ func (g *obGen) build(emphasis string) {
 				members = append(members, Pick(r, g.colls)) // nested, possibly cyclic or itself
 				continue
 			}
+			if r.Intn(14) == 0 {
+				members = append(members, J{"type": "Note", "content": "an entry without any id"}) // makes the whole listing unusable
+				continue
+			}
 			a := Pick(r, append(append([]string{}, g.actors...), g.st.Alice.ID))
 			g.nested[a] = true
 			if r.Intn(4) == 0 {
@@ -362,6 +366,22 @@ func docFor(res *Result, iri string) (J, string) {
 	if res.faultedDeref[iri] {
 		return nil, "unreachable"
 	}
+	if len(res.Spec.Faults) > 0 && res.nestedFailed == nil {
+		// a fetch answered by a simulated server whose own handling was hit by the injected fault failed as well
+		res.nestedFailed = map[string]bool{}
+		for _, d := range res.Sim.World.Derefs {
+			if d.Res == "fail" && (res.faultTask == "" || d.Task == res.faultTask) {
+				for _, f := range res.Spec.Faults {
+					if strings.HasPrefix(f.Site, d.Task+".") {
+						res.nestedFailed[d.IRI] = true
+					}
+				}
+			}
+		}
+	}
+	if res.nestedFailed[iri] {
+		return nil, "unreachable"
+	}
 	if store, ok := res.Before[hostOf(iri)]; ok {
 		if raw, ok := store[iri]; ok {
 			return mustParseJ([]byte(raw)), "ok"
@@ -377,13 +397,21 @@ func docFor(res *Result, iri string) (J, string) {
 }
 
 func membersOf(d J) ([]string, bool) {
+	var ids []string
 	switch typeOf(d) {
 	case "Collection", "CollectionPage":
-		return idsOf(d["items"]), true
+		ids = idsOf(d["items"])
 	case "OrderedCollection", "OrderedCollectionPage":
-		return idsOf(d["orderedItems"]), true
+		ids = idsOf(d["orderedItems"])
+	default:
+		return nil, false
 	}
-	return nil, false
+	for _, id := range ids {
+		if id == "" {
+			return nil, true // a listing with an entry that has no id cannot be parsed: the collection is skipped as a whole
+		}
+	}
+	return ids, true
 }
 
 // modelResolve is the C02 reference model.
@@ -542,8 +570,17 @@ func oracleC02(c *DriveCtx, res *Result) {
 	}
 	mustUnmarshal(res.Spec.Expect, &ex)
 	for _, t := range res.Tasks {
-		if !isOutboxTask(t) || !t.done || taskFaulted(res, t) {
+		if !isOutboxTask(t) || !t.done {
 			continue
+		}
+		res.faultedDeref, res.nestedFailed, res.faultTask = nil, nil, t.ID // the model sees this request's failed fetches only
+		if taskFaulted(res, t) {
+			// fault class: only a post that still reports success is judged (a swallowed Database error shows as wrong recipients);
+			// a failed Dereference is part of the world the model sees
+			if t.Err != nil {
+				continue
+			}
+			s.probe("c02-accepted-despite-fault")
 		}
 		srv := s.World.Servers[t.Srv]
 		if !srv.Spec.Federating {
@@ -556,7 +593,7 @@ func oracleC02(c *DriveCtx, res *Result) {
 		if typeOf(o.stored) == "Block" && srv.Spec.Social {
 			continue // never delivered (C16)
 		}
-		senderDoc, _ := docFor(res, o.actor.ID)
+		senderDoc := storedDoc(res, t.Srv, o.actor.ID) // the sender's own document comes from the Database, not from the network
 		want, fetched := modelResolve(res, o.stored, idOf(senderDoc["inbox"]), ex.Limit, ex.Stored)
 		// (c) what must not be dereferenced: Public, and whatever lies only beyond the configured depth
 		_, deep := modelResolve(res, o.stored, idOf(senderDoc["inbox"]), ex.Limit+8, ex.Stored)
@@ -597,10 +634,56 @@ func oracleC02(c *DriveCtx, res *Result) {
 		if len(sortedSet(got)) != len(got) {
 			s.violate("C02", "duplicate-recipients", "deliver", fmt.Sprintf("recipient list has duplicates: %v", got))
 		}
-		if !sameSet(got, want) {
+		okSet := sameSet(got, want)
+		if !okSet && taskFaulted(res, t) {
+			// an IRI named twice may have failed to fetch once (the injected fault hits one call) and been fetched the other time:
+			// using either answer is legal
+			keepF, keepN := res.faultedDeref, res.nestedFailed
+			okFetch := map[string]bool{}
+			for _, d := range s.World.Derefs {
+				if d.Task == t.ID && d.Res == "ok" {
+					okFetch[d.IRI] = true
+				}
+			}
+			lenF, lenN := map[string]bool{}, map[string]bool{}
+			for iri := range keepF {
+				if !okFetch[iri] {
+					lenF[iri] = true
+				}
+			}
+			for iri := range keepN {
+				if !okFetch[iri] {
+					lenN[iri] = true
+				}
+			}
+			res.faultedDeref, res.nestedFailed = lenF, lenN
+			want2, _ := modelResolve(res, o.stored, idOf(senderDoc["inbox"]), ex.Limit, ex.Stored)
+			res.faultedDeref, res.nestedFailed = keepF, keepN
+			okSet = sameSet(got, want2)
+		}
+		if !okSet {
 			s.violate("C02", "recipient-set", "deliver", fmt.Sprintf("transport got %v, model expects %v (limit %d, stored %v, fates %v, addressing %s)", sortedSet(got), want, ex.Limit, ex.Stored, res.Spec.World.Fate, canonJSON(addressing(o.stored))))
 		}
 	}
+}
+
+// senderComplete: the stored document of the sending actor has an inbox (otherwise the post must fail).
+func senderComplete(res *Result, t *Task) bool {
+	srv := res.Sim.World.Servers[t.Srv]
+	a := srv.actorByName(t.Req.Actor)
+	if a == nil {
+		return false
+	}
+	d := storedDoc(res, t.Srv, a.ID)
+	return d != nil && idOf(d["inbox"]) != ""
+}
+
+func storedDoc(res *Result, host, id string) J {
+	raw, ok := res.Before[host][id]
+	if !ok {
+		return nil
+	}
+	return mustParseJ([]byte(raw))
 }
 
 func addressing(m J) J {
@@ -624,8 +707,12 @@ func oracleC03(c *DriveCtx, res *Result) {
 	}
 	mustUnmarshal(res.Spec.Expect, &ex)
 	for _, t := range res.Tasks {
-		if !isOutboxTask(t) || !t.done || t.Err != nil || taskFaulted(res, t) {
+		if !isOutboxTask(t) || !t.done || taskFaulted(res, t) {
 			continue
+		}
+		res.faultedDeref, res.nestedFailed, res.faultTask = nil, nil, t.ID
+		if t.Err != nil && (nestedFailure(res, t) || !senderComplete(res, t)) {
+			continue // a peer refused the delivery, or the sender's own document is unusable: the post legitimately fails
 		}
 		srv := s.World.Servers[t.Srv]
 		if !srv.Spec.Federating {
@@ -641,13 +728,27 @@ func oracleC03(c *DriveCtx, res *Result) {
 		if o.stored == nil || (typeOf(o.stored) == "Block" && srv.Spec.Social) {
 			continue
 		}
-		senderDoc, _ := docFor(res, o.actor.ID)
-		hidden := J{}
+		senderDoc := storedDoc(res, t.Srv, o.actor.ID) // the sender's own document comes from the Database, not from the network
+		// hidden recipients: those of the stored activity and, where the Create is normalised (Social) or wraps a bare object,
+		// those the client put on the embedded objects
+		var hb []string
 		for _, p := range []string{"bto", "bcc"} {
-			if v, ok := o.stored[p]; ok {
-				hidden[p] = v
+			hb = append(hb, idsOf(o.stored[p])...)
+		}
+		if posted, err := parseJ(t.Req.Body); err == nil {
+			if !isActivityType(typeOf(posted)) {
+				hb = append(hb, idsOf(posted["bto"])...)
+				hb = append(hb, idsOf(posted["bcc"])...)
+			} else if typeOf(posted) == "Create" && srv.Spec.Social {
+				for _, ob := range aslist(posted["object"]) {
+					if om, ok := ob.(map[string]interface{}); ok {
+						hb = append(hb, idsOf(om["bto"])...)
+						hb = append(hb, idsOf(om["bcc"])...)
+					}
+				}
 			}
 		}
+		hidden := J{"bto": hb}
 		wantHidden, _ := modelResolve(res, hidden, idOf(senderDoc["inbox"]), ex.Limit, ex.Stored)
 		var got []string
 		for _, wm := range o.wire {
@@ -999,8 +1100,16 @@ func init() {
 	register(&PropDef{
 		ID: "C02", Level: "exploration", Engine: "fedsim",
 		Rule: "case = seeded federation graph (2-8 remote actors incl. shared inboxes, a peer server and local actors, 0-4 remote Collections/OrderedCollections/pages nested and cyclic, per-IRI fates unreachable/non-JSON/non-object/unknown-type, random subset of actors with an application-stored inbox, delivery depth 1-4) and one outbox post (client POST or Send) addressed through any of the five properties with IRIs, embedded actors, duplicates, all three Public spellings and the sender; oracle = executable recipient-resolution model on the stored activity vs the BatchDeliver recipients and the Dereference log. distinct = distinct event sequences (which IRIs are fetched and in which order is part of it).",
-		QuickCases: 1500, QuickBudgetS: 60, ThoroughBudgetS: 600,
-		Drive:  func(c *DriveCtx, r *Rng, k int) { c.Exec(genOutbox(r, "C02", k, c.Tier)) },
+		QuickCases: 1200, QuickBudgetS: 60, ThoroughBudgetS: 600,
+		Drive: func(c *DriveCtx, r *Rng, k int) {
+			if k%10 == 0 {
+				// one seam call fails: either the post fails, or (the error being of a kind the library tolerates) the recipients are still right
+				seed := r.s
+				c.singleFaultSweep(func() *RunSpec { return genOutbox(NewRng(seed), "C02", k, c.Tier) }, faultKindFor)
+				return
+			}
+			c.Exec(genOutbox(r, "C02", k, c.Tier))
+		},
 		Oracle: oracleC02,
 		Assumptions: []string{
 			"'expanded to the configured depth': the limit counts dereference levels, top-level recipients being level 0",
